@@ -23,11 +23,11 @@ EXPLANATION = (
 )
 ASSUMPTIONS = list(C04.ASSUMPTIONS)
 TRUSTED = C04.TRUSTED
-REQUIRED_COVERS = ["limit_reached", "sequential_A1", "hook_raise", "backend_fail", "skipped_message", "raise", "timeout", "timeout_cleanup", "backend_cancelled"]
+REQUIRED_COVERS = ["limit_reached", "sequential_A1", "hook_raise", "backend_fail", "skipped_message", "raise", "timeout", "timeout_cleanup", "backend_cancelled", "timeout_zero"]
 budget = C04.budget
 coverage_extra = C04.coverage_extra
 
-PER_MSG = ("return", "raise", "backend_fail", "hook_raise", "malformed", "unknown", "timeout", "timeout_cleanup", "empty", "empty_raw", "backend_cancelled")
+PER_MSG = ("return", "raise", "backend_fail", "hook_raise", "malformed", "unknown", "timeout", "timeout_cleanup", "empty", "empty_raw", "backend_cancelled", "timeout_zero")
 
 
 def bounds(tier: str) -> Dict[str, Any]:
@@ -56,7 +56,7 @@ def harness(c: sym.Ctx, case: Dict[str, Any]) -> None:
     kinds = [p if p in skip else "valid" for p in per]
     outcomes = [p if p not in skip else "return" for p in per]
     for p in per:
-        if p in ("hook_raise", "backend_fail", "raise", "timeout", "timeout_cleanup", "backend_cancelled"):
+        if p in ("hook_raise", "backend_fail", "raise", "timeout", "timeout_cleanup", "backend_cancelled", "timeout_zero"):
             c.cover(p)
         if p in ("malformed", "unknown", "empty", "empty_raw"):
             c.cover("skipped_message")
